@@ -102,6 +102,7 @@ func expectEndpoint(name string) string {
 }
 
 func c05(x *mon.Ctx) {
+	enableTwins(x)
 	x.Level = "fault_enumeration"
 	x.Rule = "fault enumeration over the revocation grid: target in {leaf, intermediate CA, TCB-Info signer, QE-Identity signer (a different certificate)} x revoked set in {target alone, among others, first / middle / last of 1000, twice, serial+-1, serial with a leading byte, serial x 256, unrelated 20-byte serials, 1000 unrelated} x listed in {the right CRL, the other CRL}; CRL signer in {right CA, the other CA, a foreign key under the same name, a look-alike CA}; endpoint outcome per CRL in {ok, error, empty, garbage, truncated DER, the other CRL, a CRL of a look-alike issuer}; 1-3 distribution points with each prefix failing; all four option combinations. Oracle: with revocation on, accept => both CRLs were served, each verifies under the chain's root / intermediate, and none of the four serials is listed in the CRL that governs it (independent x509.ParseRevocationList + raw ECDSA); revocation without collateral must fail. Non-trivial = the unrevoked twin was accepted at the same level. distinct = (class, parameter, options)."
 	x.Assume = []string{"crypto/x509 CRL parsing is correct", "reference reads 'obtained' existentially over everything the endpoint served"}
